@@ -321,3 +321,155 @@ pub fn case(total: u64, timeout_s: u64, rng: &mut Rng, out: &mut CaseOut) {
     }
     out.set_sample(params);
 }
+
+// ------------------------------------------------------------------------------------------------
+// Close races: one half is dropped while the other half is being polled on another thread.
+
+/// One case = `rounds` fresh channels. In each round a spinner thread polls one half in a tight loop
+/// (no-op waker) while this thread drops the other half at a random moment and then raises a flag.
+/// Closing takes the channel's lock, so once the drop has returned every later poll of the surviving
+/// half must see the closed channel: a write fails; a read drains what is buffered (at most the
+/// capacity) and then returns end-of-stream. Decided on polls that *started after* the flag was
+/// observed - never on timing.
+pub fn close_race_case(rounds: u64, rng: &mut Rng, out: &mut CaseOut) {
+    use std::sync::atomic::AtomicBool;
+    use std::task::Waker;
+    let mut collisions_possible = 0u64;
+    for round in 0..rounds {
+        let cap = *rng.pick(&[1usize, 2, 3, 8, 16, 64, 300]);
+        let drop_reader = rng.bool();
+        let spin_before = rng.below(400);
+        let chunk = rng.range(1, 8) as usize;
+        out.sig(&(cap, drop_reader, chunk));
+        let (mut tx, mut rx) = byte_channel(NonZeroUsize::new(cap).expect("cap"));
+        let gone = Arc::new(AtomicBool::new(false));
+        let started = Arc::new(AtomicBool::new(false));
+        let gone2 = gone.clone();
+        let started2 = started.clone();
+        if drop_reader {
+            // the writer spins
+            let h = std::thread::spawn(move || {
+                let waker = Waker::noop();
+                let mut cx = Context::from_waker(waker);
+                let data = vec![0x5au8; chunk];
+                let mut polls = 0u64;
+                let mut after_polls = 0u64;
+                started2.store(true, Ordering::Release);
+                loop {
+                    let after = gone2.load(Ordering::Acquire);
+                    let r = Pin::new(&mut tx).poll_write(&mut cx, &data);
+                    polls += 1;
+                    if after {
+                        // this poll started after the reader's drop had returned (a single `Pending` may be
+                        // the forced yield of the cooperative budget, which is then refilled)
+                        if matches!(r, Poll::Ready(Err(_))) {
+                            return (polls, Some(true), String::new());
+                        }
+                        after_polls += 1;
+                        if !matches!(r, Poll::Pending) || after_polls >= 3 {
+                            return (polls, Some(false), format!("{r:?} on poll {after_polls} after the drop"));
+                        }
+                        continue;
+                    }
+                    if matches!(r, Poll::Ready(Err(_))) {
+                        return (polls, None, String::new());
+                    }
+                    if polls > 50_000_000 {
+                        return (polls, None, "spinner gave up".into());
+                    }
+                }
+            });
+            while !started.load(Ordering::Acquire) {
+                std::hint::spin_loop();
+            }
+            for _ in 0..spin_before {
+                std::hint::spin_loop();
+            }
+            drop(rx);
+            gone.store(true, Ordering::Release);
+            let (polls, verdict, shown) = h.join().expect("spinner thread");
+            out.events += polls.min(1000);
+            match verdict {
+                Some(true) => collisions_possible += 1,
+                Some(false) => {
+                    out.violation(
+                        P,
+                        "close-race/write-does-not-fail-after-reader-dropped",
+                        "a write polled after the reader's drop had returned did not fail (the channel was not closed by the drop)",
+                        json!({"capacity": cap, "round": round, "poll_result": shown, "polls_before": polls}),
+                    );
+                    return;
+                }
+                None => out.count("close-race/writer-saw-the-close-before-the-flag"),
+            }
+        } else {
+            // the reader spins; a few bytes are buffered first
+            let pre = rng.below(cap as u64 + 1) as usize;
+            {
+                let waker = Waker::noop();
+                let mut cx = Context::from_waker(waker);
+                let _ = Pin::new(&mut tx).poll_write(&mut cx, &vec![0xa5u8; pre.max(1)][..pre]);
+            }
+            let h = std::thread::spawn(move || {
+                let waker = Waker::noop();
+                let mut cx = Context::from_waker(waker);
+                let mut polls = 0u64;
+                let mut after_polls = 0u64;
+                let mut pendings_after = 0u64;
+                let mut read_after = 0usize;
+                started2.store(true, Ordering::Release);
+                loop {
+                    let after = gone2.load(Ordering::Acquire);
+                    let mut space = [0u8; 4];
+                    let mut buf = ReadBuf::new(&mut space);
+                    let r = Pin::new(&mut rx).poll_read(&mut cx, &mut buf);
+                    polls += 1;
+                    let n = buf.filled().len();
+                    if after {
+                        after_polls += 1;
+                        match r {
+                            Poll::Ready(Ok(())) if n == 0 => return (polls, Some(true), String::new()),
+                            Poll::Ready(Ok(())) => {
+                                read_after += n;
+                                if read_after > cap {
+                                    return (polls, Some(false), format!("read {read_after} bytes after the writer was dropped, capacity {cap}"));
+                                }
+                            }
+                            // the forced yield of the cooperative budget (at most every 64th poll)
+                            Poll::Pending if pendings_after < 2 + after_polls / 32 => pendings_after += 1,
+                            other => return (polls, Some(false), format!("{other:?} on poll {after_polls} after the writer was dropped")),
+                        }
+                    }
+                    if polls > 50_000_000 {
+                        return (polls, None, "spinner gave up".into());
+                    }
+                }
+            });
+            while !started.load(Ordering::Acquire) {
+                std::hint::spin_loop();
+            }
+            for _ in 0..spin_before {
+                std::hint::spin_loop();
+            }
+            drop(tx);
+            gone.store(true, Ordering::Release);
+            let (polls, verdict, shown) = h.join().expect("spinner thread");
+            out.events += polls.min(1000);
+            match verdict {
+                Some(true) => collisions_possible += 1,
+                Some(false) => {
+                    out.violation(
+                        P,
+                        "close-race/no-end-of-stream-after-writer-dropped",
+                        "reads polled after the writer's drop had returned did not drain the buffer and reach end-of-stream",
+                        json!({"capacity": cap, "round": round, "observed": shown}),
+                    );
+                    return;
+                }
+                None => out.count("close-race/spinner-gave-up"),
+            }
+        }
+    }
+    out.add("close-race/rounds-judged", collisions_possible);
+    out.nontrivial = collisions_possible > 0;
+}
